@@ -51,16 +51,87 @@ Fixpoint first_match (cs : list cls) (x : xc) : option cls :=
   | c :: cs' => if matches c x then Some c else first_match cs' x
   end.
 
-(* a try/except that logs and goes on: the exception that still propagates *)
+(* ---- the log call of an except handler is code that can raise ----
+   supybot.log.Logger._log runs every message through utils.str.format(template, *args): a directive without an
+   argument raises ValueError('Extra format chars').  gen.T07.HANDLER_LOGS records, for each log call found in the
+   handlers on the read path, (site, (template is a string constant, (directives in the constant part, arguments))).
+   Sites: 0 = per-line guard of _read around parseMsg, 1 = drivers.run, 2 = log.firewall (logException),
+   3/4/5 = the addMsg / inFilter / callback handlers of Irc.feedMsg, 6 = a per-line guard around feedMsg. *)
+Definition log_entry : Type := (N * (bool * (N * N)))%type.
+Definition site_entries (site : N) : list log_entry :=
+  filter (fun e => N.eqb (fst e) site) gen.T07.HANDLER_LOGS.
+(* a constant template raises iff it has more argument-consuming directives than arguments; a template that is
+   not a constant is taken to raise (the extractor accepts that shape at site 0 only, modelled below) *)
+Definition entry_raises (e : log_entry) : bool :=
+  let '(_, (c, (nd, na))) := e in negb c || N.ltb na nd.
+Definition site_raises (site : N) : bool := existsb entry_raises (site_entries site).
+
+(* utils.str._formatRe = '%((?:\d+)?\.\d+f|[bfhiLnpqrsStTuv%])' scanned by re.sub: the number of directives that
+   pop an argument ('%%' pops none) *)
+Fixpoint drop_digits (s : str) : str :=
+  match s with
+  | c :: s' => if mem c gen.T07.FORMAT_DIGITS then drop_digits s' else s
+  | [] => []
+  end.
+(* after '%': (?:\d+)?\.\d+f *)
+Definition float_match (s : str) : option str :=
+  match drop_digits s with
+  | 46 :: r' =>
+      let r'' := drop_digits r' in
+      if Nat.ltb (length r'') (length r') then
+        match r'' with 102 :: rest => Some rest | _ => None end
+      else None
+  | _ => None
+  end.
+Fixpoint consuming_f (fuel : nat) (s : str) : N :=
+  match fuel with
+  | O => 0
+  | S f =>
+      match s with
+      | [] => 0
+      | c :: s' =>
+          if N.eqb c 37 then
+            match float_match s' with
+            | Some rest => 1 + consuming_f f rest
+            | None =>
+                match s' with
+                | d :: s'' =>
+                    if mem d gen.T07.FORMAT_CHARS
+                    then (if N.eqb d 37 then 0 else 1) + consuming_f f s''
+                    else consuming_f f s'
+                | [] => 0
+                end
+            end
+          else consuming_f f s'
+      end
+  end.
+Definition consuming (s : str) : N := consuming_f (length s) s.
+
+(* site 0 logs the rejected line: in argument position it cannot raise; in template position (string built with
+   %, + or .format: repr/str keep every directive of the line) each directive of the line wants an argument *)
+Definition guard_log_raises (line : str) : bool :=
+  existsb (fun e : log_entry =>
+             let '(_, (c, (nd, na))) := e in
+             if c then N.ltb na nd else N.ltb na (nd + consuming line))
+          (site_entries 0).
+
+(* a try/except that goes on without logging: the exception that still propagates *)
 Definition through_try (cs : list cls) (x : option xc) : option xc :=
   match x with
   | None => None
   | Some e => if caught cs e then None else Some e
   end.
 
-(* log.firewall(f) with log.testing = False: `except Exception` (the table) swallows *)
+(* a try/except whose handler logs (site) and goes on: the handler itself may raise *)
+Definition through_try_at (site : N) (cs : list cls) (x : option xc) : option xc :=
+  match x with
+  | None => None
+  | Some e => if caught cs e then (if site_raises site then Some (XE ValueError) else None) else Some e
+  end.
+
+(* log.firewall(f) with log.testing = False: `except Exception` (the table) logs (site 2) and swallows *)
 Definition through_fw (is_fw : bool) (x : option xc) : option xc :=
-  if is_fw then through_try gen.T07.FIREWALL_CATCHES x else x.
+  if is_fw then through_try_at 2 gen.T07.FIREWALL_CATCHES x else x.
 
 Definition s_feedMsg : str := [102; 101; 101; 100; 77; 115; 103].
 Definition s_takeMsg : str := [116; 97; 107; 101; 77; 115; 103].
@@ -156,7 +227,7 @@ Fixpoint run_infilters (n : N) (m : msg) (l : list (cb St)) (p : pstate) : pstat
       match h_exc r with
       | Some e =>
           (* firewall(inFilter) has the error handler `lambda self, irc, msg: msg`; then feedMsg's own try *)
-          match through_try gen.T07.FEED_INFILTER_CATCHES (through_fw (fw_cb s_inFilter) (Some e)) with
+          match through_try_at 4 gen.T07.FEED_INFILTER_CATCHES (through_fw (fw_cb s_inFilter) (Some e)) with
           | Some e' => (p', Some e', false)
           | None => run_infilters n m l' p'
           end
@@ -170,7 +241,7 @@ Fixpoint run_calls (n : N) (m : msg) (l : list (cb St)) (p : pstate) : pstate * 
   | c :: l' =>
       let r := cb_call c n m (snd p) in
       let p' := (apply_reconn (h_reconn r) (fst p), h_st r) in
-      match through_try gen.T07.FEED_CALLBACK_CATCHES (through_fw (fw_cb s_call) (h_exc r)) with
+      match through_try_at 5 gen.T07.FEED_CALLBACK_CATCHES (through_fw (fw_cb s_call) (h_exc r)) with
       | Some e => (p', Some e)
       | None => run_calls n m l' p'
       end
@@ -200,7 +271,7 @@ Definition feed_body (n : N) (m : msg) (p : pstate) : pstate * option xc :=
     | None =>
         let r := addmsg n m (snd p1) in
         let p2 := (apply_reconn (h_reconn r) (fst p1), h_st r) in
-        match through_try gen.T07.FEED_ADDMSG_CATCHES (through_fw (fw_state s_addMsg) (h_exc r)) with
+        match through_try_at 3 gen.T07.FEED_ADDMSG_CATCHES (through_fw (fw_state s_addMsg) (h_exc r)) with
         | Some e => (p2, Some e)
         | None =>
             match run_infilters n m cbs p2 with
@@ -225,11 +296,14 @@ Fixpoint feed_lines (ls : list bytes) (p : pstate) : pstate * option xc :=
       let line := decode l in
       match parse_msg line with
       | Raise e =>
-          if caught gen.T07.LOOP_GUARD_PARSE (XE e) then feed_lines ls' p else (p, Some (XE e))
+          if caught gen.T07.LOOP_GUARD_PARSE (XE e) then
+            (* drivers.log.warning('Ignoring malformed message: %r', line); continue *)
+            if guard_log_raises line then (p, Some (XE ValueError)) else feed_lines ls' p
+          else (p, Some (XE e))
       | Ok None => feed_lines ls' p
       | Ok (Some m) =>
           let '(p', x) := feed_msg (strip gen.T07.PY_WS line) m p in
-          match through_try gen.T07.LOOP_GUARD_FEED x with
+          match through_try_at 6 gen.T07.LOOP_GUARD_FEED x with
           | Some e => (p', Some e)
           | None => feed_lines ls' p'
           end
@@ -361,7 +435,10 @@ Definition drivers_run (ms : mstate) (rv : recv) : mstate :=
     | None => MS b' p' true false (None :: escapes ms)
     | Some e =>
         if caught gen.T07.RUN_CATCHES e
-        then MS b' p' false false (Some e :: escapes ms)        (* _deadDrivers.add(name); del _drivers[name] *)
+        then
+          (* log.exception('Uncaught exception in in drivers.run:') comes first in the handler *)
+          if site_raises 1 then MS b' p' true true (Some e :: escapes ms)
+          else MS b' p' false false (Some e :: escapes ms)      (* _deadDrivers.add(name); del _drivers[name] *)
         else MS b' p' true true (Some e :: escapes ms)
     end
   else ms.
@@ -380,7 +457,7 @@ Definition line_ok (l : bytes) : bool :=
   match parse_msg (decode l) with
   | Ok None => true
   | Ok (Some m) => echo_ok m
-  | Raise e => caught gen.T07.LOOP_GUARD_PARSE (XE e)      (* _read's per-line try/except logs and skips it *)
+  | Raise e => caught gen.T07.LOOP_GUARD_PARSE (XE e) && negb (guard_log_raises (decode l))   (* logged and skipped *)
   end.
 
 (* ... and conn.recv raises nothing but what _read's except clauses name *)
@@ -485,7 +562,8 @@ Definition vX (x : option xc) : value := vN (code_of_xc x).
          -> (alive crashed (escape codes, oldest first) (PONG payloads sent) (plugin log, oldest first)
              (lines fed, oldest first) connected inbuf (PONG payloads stuck in outbuffer))
    op 1: payload = (chunks decode_table valid_times) -> dom
-   op 2: same payload -> codes of the exceptions parseMsg raises *)
+   op 2: same payload -> codes of the exceptions parseMsg raises
+   op 3: payload = str -> number of argument-consuming utils.str.format directives *)
 Definition run (v : value) : value :=
   let pl := nth_v 1 v in
   let rvs := map g_recv (gL (nth_v 0 pl)) in
@@ -500,5 +578,6 @@ Definition run (v : value) : value :=
          L (map (fun e => L (map vN e)) (rev (snd (m_p ms)))); vLS (rev (fedl d)); vB (connected d); vS (m_buf ms); vLS (outbuf d)]
   | 1 => vB (dom vt dec rvs [])
   | 2 => L (map (fun e => I (exn_code e)) (parse_excs vt dec rvs []))
+  | 3 => vN (consuming (gS pl))
   | _ => L []
   end.
